@@ -36,7 +36,7 @@ TEXT.update({
 })
 TEXT.update({
  "C03": dict(
-  level="PARTIAL. Proved: the fragment half of designation (a JSON Pointer fragment resolves to exactly the location it spells and to nothing else, for every keyword/index/key); over the resolver state machine: the Loader is asked at most once per URI (C03_loader_once: NoDup of the call log, for every schema, loader and budget), the Resolved is rooted at the schema given (C03_resolved_root), documents are only appended, resolution never panics and terminates on reference cycles between loaded documents (props/C10.v: Resolve_no_panic, Resolve_returns). Modelled and tied by correspondence, not proved against a lexical specification: base-URI computation, resource and anchor scoping. The resolver state machine is an executable Coq function (res/Resolve.v) compared with the package on generated universes: outcome class, reached target through unique markers, loader call sequence.",
+  level="PARTIAL. Proved: the fragment half of designation (a JSON Pointer fragment resolves to exactly the location it spells and to nothing else); the tables resolveURIs builds are the lexical ones of the specification (C03_tables_lexical over the inductive scoping rule Lex: a subschema with a non-fragment $id starts a resource whose URI is the $id resolved against the enclosing resource's URI, every other subschema and every anchor belongs to the lexically enclosing resource; draft-07 fragment $id = anchor, $id beside $ref ignored); a reference inside a document is resolved against the URI of its lexically enclosing resource, selects a resource of the document by URI, then an anchor declared lexically inside that resource or a pointer from its root (C03_ref_designates); the Loader is asked at most once per URI (C03_loader_once), the Resolved is rooted at the schema given, documents are only appended, resolution never panics and terminates on reference cycles between loaded documents (props/C10.v). Not proved: that the lexical base is a function of the location (needs distinct locations), references that leave the document, net/url. The resolver state machine is an executable Coq function compared with the package on generated universes: outcome class, reached target through unique markers, loader call sequence.",
   note="Trusted: net/url as transcribed in uri/Uri.v (validated against net/url on 3,000+ pairs per run); the generator's coverage of reference forms and topologies bounds what the correspondence can show.",
  ),
  "C17": dict(
@@ -90,8 +90,8 @@ TEXT.update({
   note="C04_domain states the domain as a computable condition dom o T (defined types have no TypeSchemas entry, marshaler types have their string entry, no embedded struct replaced, unexported embedded types carry no json name) plus wt on values; the per-struct side conditions are proved for every type (json_fields_ok, json_fields_ext, json_fields_local). IgnoreInvalidTypes off, default debug setting. big.Int is a known finding (O-7b).",
  ),
  "C09": dict(
-  level="Theorems: C09_verdict - for every type of the computable domain dom (all kinds incl. nested structs with embedding, pointers, slices, arrays, maps, any, marshaler types under string entries) the verdict of the schema ForType returns, on ANY JSON value, at any location and dynamic scope, is conforms(type, value): a computable function of the Go type alone (the JSON shape of the type: right JSON type, exact range of a sized integer, array length, every element/member value conforming in turn, no undeclared struct member, every member without omitempty/omitzero present, null only behind a pointer or for a slice); C09_end_to_end - For, then Resolve, then Validate returns nil exactly when conforms holds; C09_encodings_conform - every encoding of a typed value conforms (C04 read through C09); C09_scalar_verdict (scalars, any options). So what the inferred schema accepts is known exactly, for all inputs. That conforming documents decode is decided on the real decoder: every single-point mutation of an encoding that the inferred schema accepts must decode into the type with DisallowUnknownFields, and the package's verdicts on those documents are compared both with the model's Validate and with conforms itself (spec_mv / spec_v oracles).",
-  note="Partial: encoding/json's decoder is the oracle of 'decodes into T', not modelled; the theorem fixes the accepted set, the law checks the decoder on sampled members of it. Known findings O-9a (float32 range), O-9b (unexported embedded pointer).",
+  level="Theorems: C09_verdict - for every type of the computable domain dom the verdict of the schema ForType returns, on ANY JSON value, is conforms(type, value), a computable function of the Go type alone (right JSON type, exact range of a sized integer, array length, elements/member values conforming in turn, no undeclared struct member, every member without omitempty/omitzero present, null only behind a pointer or for a slice); C09_end_to_end (For, Resolve, Validate = conforms); C09_encodings_conform; C09_conforms_decodes / C09_accepted_decode - a model of when encoding/json with DisallowUnknownFields decodes a JSON value into a type without error (inf/Decode.v: null anywhere, integers within the kind's range, float32 within range, exact then case-folded member names, unknown members refused, extra array elements dropped) and the proof that whatever the inferred schema accepts, that decoder takes - for types without marshaler types and float32 (finding O-9a), integers within int64, objects without duplicate members. Correspondence: the package's verdicts on every mutated document are compared with the model's Validate and with conforms itself (spec_mv / spec_v); the decoder model is compared with the real decoder on every mutated document of its domain (spec_impl_decall: ~4800 decode outcomes per quick run, both successes and refusals); law: an accepted document decodes.",
+  note="Partial only in that encoding/json's decoder is a model validated differentially rather than verified code; marshaler types (time.Time ...) are outside the decoder model. Known findings O-9a (float32 range), O-9b (unexported embedded pointer).",
  ),
  "C16": dict(
   level="Theorems: C16_struct_fields - the properties of a struct's schema are exactly the fields encoding/json selects (json_fields, itself validated against the real encoder), under their JSON names, in field order (PropertyOrder), each with the field type's inferred schema, required exactly without omitempty/omitzero, additionalProperties false; C16_names_distinct; C16_cycle (a defined type met again during its own inference is an error at once); C16_nothing_dropped (IgnoreInvalidTypes off). Determinism and freshness hold in the model by construction (a function returning an immutable tree) and are decided for the package by laws of family infer: two calls give equal documents, no *Schema is shared between results, within a result or with TypeSchemas (reflection over all fields), Resolve accepts the result, names/order/required against the real encoder.",
